@@ -9,11 +9,11 @@ def run(ctx):
         ctx.run_shards(b, "TestVerifC02", 1, 600, "c02")
     else:
         quick = ctx.tier == "quick"
-        ctx.run_shards(b, "TestVerifC02", 20 if quick else 22, 900 if quick else 3400, "c02")
+        ctx.run_shards(b, "TestVerifC02", 26 if quick else 28, 900 if quick else 3400, "c02")
         # the same workload with 2 OS threads and under the race detector (schedule perturbation; reports are diagnostics)
-        ctx.run_shards(b, "TestVerifC02", 10 if quick else 18, 900 if quick else 3400, "c02p2", extra_env={"GOMAXPROCS": "2", "VERIF_TIER": "quick", "VERIF_C02_NOQUIET": "1"})
+        ctx.run_shards(b, "TestVerifC02", 16 if quick else 18, 900 if quick else 3400, "c02p2", extra_env={"GOMAXPROCS": "2", "VERIF_TIER": "quick", "VERIF_C02_NOQUIET": "1"})
         br = ctx.build(pkg, race=True)
-        ctx.run_shards(br, "TestVerifC02", 10, 1500 if quick else 3400, "c02race", extra_env={"VERIF_TIER": "quick", "VERIF_C02_NOQUIET": "1"}, race=True)
+        ctx.run_shards(br, "TestVerifC02", 16 if quick else 18, 1500 if quick else 3400, "c02race", extra_env={"VERIF_TIER": "quick", "VERIF_C02_NOQUIET": "1"}, race=True)
     return driver.finish(
         ctx, "exploration",
         "one physical session per case. Scripted independence: a coordinator holds 1-6 other logical connections (on 1-3 channels) in chosen states "
@@ -22,5 +22,9 @@ def run(ctx):
         "application, close by target} on another connection, which must complete under the stall rule. Free-running stress: k in {2,4,8,16} goroutines open "
         "tagged connections concurrently and run random write/read/pause/close scripts, every stream keyed by its connection so a foreign byte is attributed. "
         "Further scripted operations: a connection for a channel the server refuses, and for a channel whose target is down, between uses of the held connections. A peer that drives the multiplexer by hand opens a logical connection and stays silent on it: another connection opened meanwhile, another one after a silent connection was closed unused, and the silent one when it finally names its channel must all be served. Connections that stay quiet for 35/65 s. "
+        "Long lives of ONE session: histories of 1000/5000 logical connections (300 in the perturbed passes, 300 over DNS) that come and go, 1-4 at a time, next to two connections held idle from the start, "
+        "with every kind of ending as the only one and mixed {closed by the application, closed by the target, target down, channel refused, target gone with unread data, application gone with unread data, "
+        "closed before the first byte}; after every 50-110 endings the held connections and a new connection on every channel must work. Crowds of 400-800 / 1500-2500 logical connections open and idle at the same "
+        "time on one session: every further open, a sample of the members, a new connection, every close, and a new connection after all have left must complete. "
         "Repeated with GOMAXPROCS=2 and under -race, with random delays at the server.stream.accepted hook. Distinct = case descriptor; non-trivial = the operation ran to a verdict.",
         ["both ends of every logical connection are held by the harness", "unread data of stalled connections stays under the shared 4 MiB receive buffer, as the property requires"])
